@@ -89,6 +89,7 @@ theorem next_eq_first (s : MoneyFlowIndex F) (b : Bar F) (h : WF s) (h0 : s.coun
   obtain ⟨hp, hs, hsz, hi, hc⟩ := h
   have hm : isizeMax < usizeMax := by decide
   unfold nextBar typical
+  try simp only [gen_helper]
   generalize Scalar.div (Scalar.add (Scalar.add b.close b.high) b.low) (Scalar.lit 3 0 : F) = t
   rs_exec_lazy
   unfold cursor
@@ -118,6 +119,7 @@ theorem next_eq (s : MoneyFlowIndex F) (b : Bar F) (ev : F) (h : WF s) (h0 : 0 <
   have hev := Option.some.inj hev
   subst hev
   unfold nextBar typical
+  try simp only [gen_helper]
   generalize Scalar.div (Scalar.add (Scalar.add b.close b.high) b.low) (Scalar.lit 3 0 : F) = t
   -- evaluate up to the first test, decide it through my own spelling, go on
   rs_exec_lazy [ite_period, ite_index, ite_count, ite_prev, ite_pos, ite_neg, ite_deque]
@@ -189,6 +191,7 @@ theorem nextBar_guard (s s' : MoneyFlowIndex F) (b : Bar F) (y : F)
   -- tests are); each leaf is `pure (self, 50)` or `pure (if total == 0 then (self, 50) else (self, ratio))`
   suffices H : OptAll Guarded (s.nextBar b) from H _ h
   unfold nextBar
+  try simp only [gen_helper]
   simp only [Option.bind_eq_bind, Option.pure_def]
   repeat' (first
     | with_reducible apply optAll_ite
